@@ -30,7 +30,12 @@ SPEC = dict(
           "Authorization headers; every unregistered verb (incl. DELETE, HEAD) with a root caller and with no creds; plus "
           "random points of the wide product. polkit.CheckAuthorization and cgroup.SnapNameFromPid are replaced at the "
           "package's mock points, connections and the user live in a real state.State. Observed: handler ran / 405 / "
-          "401-403 / 500 / panic, and inside the handler ucrednetGetWithInterfaces(r.RemoteAddr). "
+          "401-403 / 500 / panic, and inside the handler ucrednetGetWithInterfaces(r.RemoteAddr). WHO-IS-CONNECTED block "
+          "(exhaustive): every interface-gated endpoint x verb on the snap socket x calling instance in {some-snap, "
+          "some-snap_dev, other-snap, lookup fails} x per listed interface all subsets of these three holding an active "
+          "plug-side connection, plus slot-side-only, undesired, hotplug-gone, look-alike interface names (extended, "
+          "truncated, upper case), unlisted interface, look-alike plug snap names. POLKIT-ACTION block (exhaustive): every "
+          "endpoint x verb, plain user, polkit granting exactly one action. "
           "cred/parse/attach: (&ucrednet{..}).String() parsed back for boundary and random pid/uid/socket; "
           "ucrednetGetWithInterfaces and ucrednetAttachInterface on mutated credential strings, compared with the model. "
           "Non-trivial = handler ran, or a credentialed caller was denied."),
@@ -45,7 +50,7 @@ SPEC = dict(
     assumptions=[
         "PARTIAL: C26_attach_roundtrip_partial / C26_attach_preserves_creds prove that attaching interfaces preserves pid, uid and socket and give the interface list for a fresh address and for an already attached name; the exact list after attaching a new name to a non-empty list is compared by the driver, not proved.",
         "dirs.SnapdSocket = /run/snapd.socket and dirs.SnapSocket = /run/snapd-snap.socket (default root directory); only their being different matters to the theorems",
-        "connection references in state are well formed (interfaces.ParseConnRef does not fail) and ifacestate.ConnectionStates does not return an error; both error paths deny access in the code",
+        "connection references in state are well formed (interfaces.ParseConnRef does not fail) and ifacestate.ConnectionStates does not return an error; both error paths deny access in the code; a cgroup lookup that succeeds with an empty snap name is not generated",
         "the round trip is stated for real peers: 0 < pid < 2^31, uid != 2^32-1, socket path without `;` (the listener's own address)",
         "routing (which Command a URL reaches) is gorilla/mux and not part of the property's model",
     ],
